@@ -271,6 +271,10 @@ func (e *Engine) callFunction(s *State, fr *Frame, dst *ssa.Call, f *ssa.Functio
 		setResult(v)
 		return nil, false
 	}
+	if v, handled := e.modelCoordCall(s, fr, key, f, args, site); handled { // models_coord.go: sort / time
+		setResult(v)
+		return nil, false
+	}
 	if v, succ, handled, done := e.modelCall(s, fr, dst, key, f, args, site); handled {
 		if done {
 			return succ, true
@@ -463,6 +467,7 @@ func (e *Engine) modularCall(s *State, fr *Frame, c *FuncContract, key string, s
 	w.Readers = map[int]bool{}
 	e.havocWrites(s, fr, w, "call."+sanitize(shortKey(key)))
 	rv := e.freshResults(s, sig, shortKey(key))
+	rv = e.coordFreshResult(s, c, sig, rv) // models_coord.go: `returns_fresh`
 	// bind results
 	var results []Value
 	if tv, ok := rv.(*Tuple); ok {
